@@ -5,7 +5,7 @@ the expression of a `{% liquid … %}` tag.
 
 Rules, in order (compiled with `re.DOTALL`):
   LIQUID_EXPR  `[ \t]*(?P<name>#|\w+)[ \t]*(?P<expr>.*?)[ \t\r]*?(\n+|$)`     (no comment marker)
-               `[ \t]*(?P<name>(\w+|MARKER))[ \t]*(?P<expr>.*?)[ \t\r]*?(\n+|$)`  (marker =
+               `[ \t]*(?P<name>(MARKER|\w+))[ \t]*(?P<expr>.*?)[ \t\r]*?(\n+|$)`  (marker =
                `env.comment_start_string.replace("{", "")`, when that is not empty)
   SKIP         `[\r\n]+`
   ILLEGAL      `.`
@@ -36,13 +36,18 @@ def lineEnd : List Char → List Char × List Char × List Char × List Char
       if isNL x then ([], tr.1, (spanP isNL (x :: xs)).1, (spanP isNL (x :: xs)).2)
       else let r := lineEnd cs; (c :: r.1, r.2.1, r.2.2.1, r.2.2.2)
 
-/-- the `name` group at the head of the input: `#|\w+` when `marker = []`, `\w+|marker` otherwise -/
+/-- the `name` group at the head of the input: `#|\w+` when `marker = []`; otherwise `MARKER|\w+`, where a
+marker that ends in a word character carries `(?!\w)` (it must not be followed by a word character) -/
 def name? (marker : List Char) : List Char → Option (List Char × List Char)
   | [] => none
   | c :: cs =>
-    if isWord c then some (c :: (spanP isWord cs).1, (spanP isWord cs).2)
-    else if marker.isEmpty then (if c == '#' then some ([c], cs) else none)
-    else if marker.isPrefixOf (c :: cs) then some (marker, (c :: cs).drop marker.length)
+    if marker.isEmpty then
+      (if c == '#' then some ([c], cs)
+       else if isWord c then some (c :: (spanP isWord cs).1, (spanP isWord cs).2) else none)
+    else if marker.isPrefixOf (c :: cs) &&
+        !((marker.getLast?.map isWord).getD false && (((c :: cs).drop marker.length).head?.map isWord).getD false) then
+      some (marker, (c :: cs).drop marker.length)
+    else if isWord c then some (c :: (spanP isWord cs).1, (spanP isWord cs).2)
     else none
 
 inductive Kind | expr | skip | illegal
@@ -91,29 +96,26 @@ theorem lineEnd_app (cs : List Char) :
         rw [h2]; exact h1
       · simp only [List.cons_append, ih]
 
-theorem name_app (marker cs nm r : List Char) (h : name? marker cs = some (nm, r)) :
-    nm ++ r = cs ∧ (marker ≠ [] ∨ nm ≠ []) ∧ (marker = [] → nm ≠ []) := by
+theorem name_app (marker cs nm r : List Char) (h : name? marker cs = some (nm, r)) : nm ++ r = cs := by
   unfold name? at h
   split at h
   · cases h
   · next c cs =>
     split at h
-    · cases h
-      refine ⟨by simp [spanP_app], Or.inr (by simp), fun _ => by simp⟩
     · split at h
-      · next hm =>
-        split at h
-        · cases h; exact ⟨rfl, Or.inr (by simp), fun _ => by simp⟩
+      · cases h; rfl
+      · split at h
+        · cases h; simp [spanP_app]
         · cases h
-      · next hm =>
-        split at h
-        · next hp =>
-          cases h
-          have hm' : marker ≠ [] := by simpa using hm
-          refine ⟨?_, Or.inl hm', fun h0 => absurd h0 hm'⟩
-          have := List.isPrefixOf_iff_prefix.mp hp
-          obtain ⟨t, ht⟩ := this
-          rw [← ht]; simp
+    · split at h
+      · next hp =>
+        cases h
+        have hp' : marker.isPrefixOf (c :: cs) = true := by
+          simp only [Bool.and_eq_true] at hp; exact hp.1
+        obtain ⟨t, ht⟩ := List.isPrefixOf_iff_prefix.mp hp'
+        rw [← ht]; simp
+      · split at h
+        · cases h; simp [spanP_app]
         · cases h
 
 /-- with a non-empty marker (or none) a name is never empty -/
@@ -122,14 +124,16 @@ theorem name_ne (marker cs nm r : List Char) (h : name? marker cs = some (nm, r)
   split at h
   · cases h
   · split at h
-    · cases h; simp
     · split at h
+      · cases h; simp
       · split at h
         · cases h; simp
         · cases h
-      · next hm =>
-        split at h
-        · cases h; simpa using hm
+    · next hm =>
+      split at h
+      · cases h; simpa using hm
+      · split at h
+        · cases h; simp
         · cases h
 
 /-- a line match splits its input, is non-empty, and its groups lie at the recorded offsets -/
@@ -145,7 +149,7 @@ theorem lineAt_ok (marker : List Char) (c : Char) (r : List Char) : (lineAt mark
   split
   · next nm r2 hn =>
     have h1 := spanP_app isBlank (c :: r)
-    have h2 := (name_app _ _ _ _ hn).1
+    have h2 := name_app _ _ _ _ hn
     have h3 := spanP_app isBlank r2
     have h4 := lineEnd_app (spanP isBlank r2).2
     refine ⟨?_, ?_,
